@@ -29,7 +29,8 @@ from analysis import facts as F
 from analysis.cfg import PathFlow, Automaton
 from analysis.e4 import E4
 from analysis.interp import Int, Enum, Bool
-from analysis.bits import BV, Interp, CellRef, bf_from_fn, bf_table, Undecided, TOP
+from analysis.bits import BV, BF, Interp, CellRef, bf_from_fn, bf_table, Undecided, TOP
+BF_TRUE = BF.const(1)
 
 DS = 'dns_sector::DNSSector'
 PARSE, PRR, PQ, POPT = DS + '::parse', DS + '::parse_rr', DS + '::parse_question', DS + '::parse_opt'
@@ -519,6 +520,74 @@ def limits_rule(ctx, facts, cfg, pol, e4):
         ctx.violation(rid, 'constants::DNS_MAX_HOSTNAME_LEN', 'value', 'DNS_MAX_HOSTNAME_LEN is %s, policy says %d' % (v255, pol['name_max']), config=cfg)
 
 
+def scan_helpers(facts, f, models=None):
+    """{callee key: refused byte set} for the local bool-returning functions the walker calls with a byte slice"""
+    if models is None:
+        models = {'<impl u8>::is_ascii_control': lambda args, m: bf_from_fn([args[0]], lambda c: c < 32 or c == 127),
+                  '<impl u8>::is_ascii_graphic': lambda args, m: bf_from_fn([args[0]], lambda c: 33 <= c <= 126),
+                  '<impl u8>::is_ascii': lambda args, m: bf_from_fn([args[0]], lambda c: c < 128),
+                  '<impl u8>::is_ascii_whitespace': lambda args, m: bf_from_fn([args[0]], lambda c: c in (9, 10, 12, 13, 32))}
+    out = {}
+    if f is None:
+        return out
+    for bi, b in F.blocks(f):
+        t = b['term']
+        if t['k'] == 'call':
+            for ck in facts.callee_keys(f, t):
+                if ck in facts.fns and ck not in out and facts.fns[ck]['locals'][0].get('k') == 'bool':
+                    tab = loop_predicate_table(facts, ck, models)
+                    if tab is not None:
+                        out[ck] = tab
+    return out
+
+
+def loop_predicate_table(facts, key, models):
+    """For a bool-returning function that walks a byte slice and returns early: the set of byte values c for which one
+    iteration returns true (E3 on the loop body with a symbolic byte), provided the exhausted loop returns false.  None if the
+    function does not have that shape."""
+    from analysis.bits import EnumV
+    f = facts.fn(key)
+    if f is None or f['locals'][0].get('k') != 'bool':
+        return None
+    head = None
+    for bi, b in F.blocks(f):
+        t = b['term']
+        if t['k'] == 'call' and (F.call_path(t) or '').endswith("Iter<'a, T> as std::iter::Iterator>::next"):
+            if head is not None:
+                return None
+            head, dest, nxt = bi, t['dest']['local'], t['target']
+    if head is None:
+        return None
+    sw = f['blocks'][nxt]['term']
+    if sw['k'] != 'switch':
+        return None
+    some = next((tb for v, tb in sw['targets'] if v == 1), None)
+    none = next((tb for v, tb in sw['targets'] if v == 0), sw.get('otherwise'))
+    if some is None or none is None:
+        return None
+    try:
+        it = Interp(facts.fns, models)
+        it.stop = {head}
+        res = []
+        it._exec(f, some, {dest: EnumV('std::option::Option', 1, [CellRef('B', 0)])}, {'B': [BV.sym('c', 8)]}, BF_TRUE, res, 0)
+        refused = set()
+        names = ['c%d' % i for i in range(8)]
+        for pc, r, m in res:
+            if r is None:
+                continue            # back to the loop head: this byte let the walk go on
+            if r is TOP or getattr(r, 'vs', None) is None:
+                return None
+            refused |= bf_table(pc & r, names)
+        end = []
+        it2 = Interp(facts.fns, models)
+        it2._exec(f, none, {dest: EnumV('std::option::Option', 0, [])}, {'B': [BV.sym('c', 8)]}, BF_TRUE, end, 0)
+        if not end or any(r is None or r is TOP or not (r.is_const() and not (r.tt & 1)) for pc, r, m in end):
+            return None             # the exhausted walk must answer false
+        return refused
+    except Exception:  # noqa
+        return None
+
+
 def charset_rule(ctx, facts, cfg, pol):
     rid = 'C02.c'
     f = facts.fn(WALK_C)
@@ -548,6 +617,14 @@ def charset_rule(ctx, facts, cfg, pol):
             miss = sorted(want - (got or set()))
             ctx.violation(rid, ck, 'byte-set', 'the label-byte predicate refuses %s; it no longer refuses %s and additionally refuses %s'
                           % ('%d byte values' % len(got) if got is not None else 'an undetermined set', ['0x%02x' % x for x in miss], ['0x%02x' % x for x in extra]), site=cf['at'], config=cfg)
+    # ... or a helper the walker hands the label to (a loop over the bytes with an early `return true`)
+    for hk, tab in sorted(scan_helpers(facts, f, models).items()):
+        n += 1
+        ok = tab == want
+        ctx.instance(rid, 'label bytes refused by %s: %d values, expected %d' % (hk.split('::')[-1], len(tab), len(want)), ok=ok, site=facts.fns[hk]['at'])
+        if not ok:
+            ctx.violation(rid, hk, 'byte-set', 'the label-byte scan %s refuses %d byte values; it no longer refuses %s and additionally refuses %s'
+                          % (hk, len(tab), ['0x%02x' % x for x in sorted(want - tab)], ['0x%02x' % x for x in sorted(tab - want)]), site=facts.fns[hk]['at'], config=cfg)
     if n < 1:
         ctx.violation(rid, '<floor>', 'label predicate', 'no boolean closure found in check_compressed_name', kind='below-floor')
     fu = facts.fn(WALK_U)
@@ -593,6 +670,8 @@ class _ScanAu(Automaton):
             ty = a.get('ty') or (a.get('place') or {}).get('ty') or {}
             if ty.get('def') in self.pred:
                 q2 = (q[0], 'called', q[2])
+        elif p in self.pred:          # a scan helper: called with the label, answers whether a forbidden byte was found
+            q2 = (q[0], 'called', q[2])
         if t.get('target') is not None:
             q2 = self._enter(q2, t['target'], t.get('at'))
         return [(q2, None)] if q2 != q else None
@@ -605,7 +684,7 @@ class _ScanAu(Automaton):
             neg = False
             while e[0] == 'unop' and e[1] == 'Not':
                 e, neg = e[2], not neg
-            if e[0] == 'call' and str(e[1]).endswith('::any'):
+            if e[0] == 'call' and (str(e[1]).endswith('::any') or str(e[1]) in self.pred):
                 found = (value != 0) if value is not None else all(v == 0 for v, _ in t['targets'])
                 if neg:
                     found = not found
@@ -628,7 +707,7 @@ def scan_on_every_path_rule(ctx, facts, cfg):
     loops = F.natural_loops(f)
     heads = set(loops)
     acc = [(bi, s_) for bi, s_, a_, l_ in acc if any(bi in body for body in loops.values())]
-    pred = {c for c in facts.closures_of(f) if facts.fns.get(c, {}).get('locals', [{}])[0].get('k') == 'bool'}
+    pred = {c for c in facts.closures_of(f) if facts.fns.get(c, {}).get('locals', [{}])[0].get('k') == 'bool'} | set(scan_helpers(facts, f))
     # the accumulation of the name length (not of the cursor): the one whose result is compared with the name limit
     pol = policy()
     lim = []
